@@ -4,10 +4,45 @@ import (
 	"errors"
 	"fmt"
 	"io"
+	"io/fs"
+	"syscall"
 )
 
 // ErrSimIO is the injected read error (an EIO-like failure of the simulated disk).
 var ErrSimIO = errors.New("simulated I/O error (EIO)")
+
+// ReadErrors are the error values a failing Read may return (ReadPlan.ErrKind indexes them): the
+// simulator's own EIO, and errors real readers use to report a failure - a decompressor or an
+// HTTP body cut short (io.ErrUnexpectedEOF), a pipe closed under the reader (io.ErrClosedPipe), a
+// failing disk as *os.File reports it (*fs.PathError wrapping EIO). None of them is io.EOF.
+var ReadErrors = []error{
+	ErrSimIO,
+	io.ErrUnexpectedEOF,
+	io.ErrClosedPipe,
+	&fs.PathError{Op: "read", Path: "spec.grammar", Err: syscall.EIO},
+}
+
+// IsInjected reports whether err carries (the text of) one of the injected read errors.
+func IsInjected(err error) bool {
+	if err == nil {
+		return false
+	}
+	for _, e := range ReadErrors {
+		if errors.Is(err, e) || containsText(err.Error(), e.Error()) {
+			return true
+		}
+	}
+	return false
+}
+
+func containsText(s, sub string) bool {
+	for i := 0; i+len(sub) <= len(s); i++ {
+		if s[i:i+len(sub)] == sub {
+			return true
+		}
+	}
+	return false
+}
 
 // ReadPlan decides every Read of a SimReader. The zero value is the "full" behaviour of a
 // regular file: fill p completely until the data runs out, return the final partial chunk with
@@ -27,7 +62,12 @@ type ReadPlan struct {
 	ErrCall     int  `json:"err_call"`
 	ErrWithData bool `json:"err_with_data,omitempty"`
 	ErrData     int  `json:"err_data,omitempty"`
+	// ErrKind selects the error value from ReadErrors (0: ErrSimIO).
+	ErrKind int `json:"err_kind,omitempty"`
 }
+
+// Err is the error value a failing Read of this plan returns.
+func (p ReadPlan) Err() error { return ReadErrors[p.ErrKind%len(ReadErrors)] }
 
 func FullPlan() ReadPlan { return ReadPlan{ErrCall: -1} }
 
@@ -53,7 +93,11 @@ func (p ReadPlan) Kind() string {
 }
 
 func (p ReadPlan) String() string {
-	return fmt.Sprintf("%s{errCall=%d zero=%v maxChunk=%d}", p.Kind(), p.ErrCall, p.ZeroCalls, p.MaxChunk)
+	e := ""
+	if p.ErrCall >= 0 {
+		e = fmt.Sprintf(" err=%q", p.Err().Error())
+	}
+	return fmt.Sprintf("%s{errCall=%d%s zero=%v maxChunk=%d}", p.Kind(), p.ErrCall, e, p.ZeroCalls, p.MaxChunk)
 }
 
 // SimReader is the simulated disk, read side.
@@ -87,7 +131,7 @@ func (r *SimReader) Read(p []byte) (int, error) {
 		r.CallsAfterTerm++
 	}
 	if r.ErrDelivered {
-		return 0, ErrSimIO
+		return 0, r.plan.Err()
 	}
 	if call == r.plan.ErrCall {
 		n := 0
@@ -104,7 +148,7 @@ func (r *SimReader) Read(p []byte) (int, error) {
 			r.Delivered += n
 		}
 		r.ErrDelivered = true
-		return n, ErrSimIO
+		return n, r.plan.Err()
 	}
 	for _, z := range r.plan.ZeroCalls {
 		if z == call {
